@@ -44,6 +44,17 @@ CHECKS = {
     },
 }
 
+CHECKS['C19'] = {
+    'engine': 'V',
+    'technique': 'Verus contracts on get_type_layout / has_same_offsets against independent HLSL and Metal ABI spec functions',
+    'level_text': 'Unbounded deductive proof (Verus) on the verbatim text of get_type_layout and has_same_offsets: for every type registry with acyclic by-value containment '
+                  'the computed (size, alignment) equals the HLSL structured-buffer resp. Metal ABI spec function (incl. struct tail padding, vec3 = 4 scalars on Metal), and '
+                  'has_same_offsets answers true only if every struct member offset and array stride agrees recursively under both ABIs.',
+    'level_note': 'Assumed: get_type_layer / get_underlying_type_id getters, u32::next_multiple_of and next_power_of_two contracts, ABI rules as written in the spec functions '
+                  '(DXC C-like scalar alignment; MSL spec 2.2/2.3). Preconditions not proved of the typer: acyclic containment, vector lengths 1..4, sizes < 2^24, no literal/template types inside '
+                  'buffer elements. Termination of the recursion is not verified (exec_allows_no_decreases_clause). check_layout itself (which types are checked, size comparison) is being added.',
+}
+
 NOT_APPLICABLE = {
     'C01': 'not yet built in this session (planned partial claim: literal values and operator identity in the HLSL exporter); see DESIGN.md §3 C01',
     'C02': 'MSL meaning preservation: the Metal generator is three monoliths (4.5k+2.2k+1k lines) over HashMap-backed context; no formal MSL semantics or function-level contract within reach of Verus/Kani',
